@@ -283,3 +283,54 @@ func AddDefaultNamespaceWorkloads(r *rng.R, w *World, c Cfg) {
 	}
 	w.AddFeature("defaultNamespaceOmitted")
 }
+
+// AddIsolatedNamespace adds a namespace whose workloads have NO real connection at all (everything denied in one direction, the other
+// direction open only towards selectors nobody satisfies) but ARE exposed to representative peers, and makes a workload of another
+// namespace exposed, in the same direction, to a representative peer located in that namespace. Outputs that group peers by namespace
+// (dot subgraphs) then have to place real, connection-less workloads and representative peers of one namespace together, whatever the
+// order in which the analysis happens to visit them.
+func AddIsolatedNamespace(r *rng.R, w *World) {
+	x := "iso"
+	if w.NsByName(x) != nil {
+		return
+	}
+	w.Namespaces = append(w.Namespaces, Namespace{Name: x, HasObj: r.P(0.5), Labels: map[string]string{}})
+	n := r.Range(1, 2)
+	for i := 0; i < n; i++ {
+		w.Workloads = append(w.Workloads, Workload{Ns: x, Name: fmt.Sprintf("iso%d", i), Kind: KDeployment, Labels: map[string]string{"app": fmt.Sprintf("iso%d", i)}, Ports: []CPort{{Num: 80}}})
+	}
+	egress := r.P(0.7)
+	ghost := func() *Sel { return &Sel{ML: map[string]string{"app": rng.Pick(r, []string{"audit", "ghost", "nobody"})}} }
+	rule := func(p NPPeer) NPRule { return NPRule{Peers: []NPPeer{p}, Ports: []NPPort{{Port: rng.Pick(r, PortNums)}}} }
+	// the isolated namespace: both directions governed; the closed one has no rule, the open one only reaches nobody
+	iso := NetPol{Ns: x, Name: "isolate", PodSel: Sel{}, HasTypes: true, PolicyTypes: []string{"Ingress", "Egress"}}
+	var open []NPRule
+	open = append(open, rule(NPPeer{PodSel: ghost()}))
+	if r.P(0.4) && len(w.Workloads) > n {
+		open = append(open, rule(NPPeer{PodSel: ghost(), NsSel: &Sel{ML: map[string]string{MetaName: w.Workloads[0].Ns}}}))
+	}
+	if egress {
+		iso.Egress = open
+	} else {
+		iso.Ingress = open
+	}
+	w.NetPols = append(w.NetPols, iso)
+	// a workload elsewhere, exposed in the same direction to a representative peer located in the isolated namespace
+	if len(w.Workloads) > n {
+		y := w.Workloads[r.Intn(len(w.Workloads)-n)]
+		other := NetPol{Ns: y.Ns, Name: "towards-iso", PodSel: Sel{}, HasTypes: true}
+		peer := NPPeer{PodSel: ghost(), NsSel: &Sel{ML: map[string]string{MetaName: x}}}
+		if r.P(0.2) {
+			peer.PodSel = nil
+		}
+		if egress {
+			other.PolicyTypes = []string{"Egress"}
+			other.Egress = []NPRule{rule(peer)}
+		} else {
+			other.PolicyTypes = []string{"Ingress"}
+			other.Ingress = []NPRule{rule(peer)}
+		}
+		w.NetPols = append(w.NetPols, other)
+	}
+	w.AddFeature("isolatedNamespace")
+}
